@@ -4,10 +4,11 @@ HOOK_COMMITS = [
     "9ad3cc6",  # ByteRangeLockSet.VerifEntries
     "de55c5c",  # scheduler enter/leave tracer + VerifSnapshot
     "1e05bf9",  # file pool quota counters / free sector count
+    "78d63cc",  # pool-backed file counters
 ]
 
 # harness packages compiled by bin/setup (those of the registered checks)
-SETUP_PACKAGES = ["brl", "sched", "buildclient", "filepool"]
+SETUP_PACKAGES = ["brl", "sched", "buildclient", "filepool", "execpipe", "poolfile", "inputroot"]
 
 NOT_APPLICABLE = {}
 
@@ -53,4 +54,25 @@ CHECKS["C15"] = {
     "design_ref": "DESIGN.md section 4 (C15)",
     "note": _NOTE + " Assumes hole sources not longer than the file they are created with, sequential calls per pool, small offsets.",
     "technique": "TLA+ reference model + TLC validation of real-code traces (random, exhaustive small-domain enumeration, fault enumeration)",
+}
+
+CHECKS["C09"] = {
+    "text": "ExecPipeline.tla models the batching layer (Put / flushLocked / flush callback, sticky error) under StorageFlushing and Caching; TLC explores it exhaustively (<=3 blobs with duplicates, 3-4 Puts, batch size 1..3, semaphore 1..2, every pre-existing CAS subset, every base outcome, do_not_cache, ok/fail/cancel at every CAS FindMissing/Put, AC Put and historical Put) and checks C09_AC, C09_Error, C09_Ack, C09_Buffers. The real decorator stack Caching(...StorageFlushing(base, flush)) over the real NewBatchedStoreBlobAccess runs on instrumented CAS/AC fakes for every canonical put sequence, every pre-existing subset, batch 1..3, 3 outcomes x do_not_cache, with a failure and a cancellation injected at every storage-call position, plus seeded random multi-fault and concurrent scenarios; TLC evaluates the four clauses on every logged run.",
+    "design_ref": "DESIGN.md section 3 (C09)",
+    "note": _NOTE + " The base executor is a scripted fake that references a digest only if its Put returned nil (as localBuildExecutor does); the CAS fake answers FindMissing truthfully.",
+    "technique": "TLA+ spec + exhaustive TLC; exhaustive fault-position enumeration on the real decorator stack validated by TLC",
+}
+
+PENDING = {}
+PENDING["C16"] = {
+    "text": "PoolFile.tla: design model of pool-backed files (reference count = links + descriptors + frozen readers, freeze/unfreeze, bounded wait for writers, cached digest, two-half CAS transfer); TLC explores all interleavings of 2 client threads and 2 uploaders and checks C16_Refs, C16_CloseOnce, C16_CloseForGood, C16_Stale, C16_StaleUntouched, C16_Digest, C16_NoLostWakeup and C16_BoundedWait (under fairness). The real NewPoolBackedFileAllocator behind the real FUSE and NFS stateful handle allocators (directly and through the virtual build directory) runs over an instrumented pool and a fake CAS with a gated two-half Put, inside testing/synctest: 11 scripted races x 4 wirings, seeded random histories, an enumeration of all legal histories to depth 4-5, and the dead-file data operations driver; PoolFileTrace.tla judges every line (Close count vs references, touches of released storage, statuses on released/live files, reported digest = SHA-256 of the CAS bytes = a content the file had during the upload, link counts, parked calls).",
+    "design_ref": "DESIGN.md section 4 (C16)",
+    "note": _NOTE + " Kernel calling convention assumed (read/write only through a descriptor with that access, Unlink only while linked); one call per step.",
+    "technique": "TLA+ design model checked by TLC (safety + bounded-wait liveness); TLC validation of real-code traces (scripted races, random, exhaustive short histories)",
+}
+PENDING["C17"] = {
+    "text": "InputRootOps/InputRoot.tla: reference model with a CAS of raw Directory/Tree messages (well-formed, invalid or duplicate names, bad digests, missing), Denotation(root digest) and a lazily materialised per-action tree; TLC checks exhaustively that every exploration order interleaved with local modifications and a storage error shows exactly Denotation overlaid with the modifications, that malformed directories only produce errors and create nothing, that a failed load stays retryable, that CAS files refuse alteration and that actions only change their own tree. The real stack is assembled as bb_worker does (in-memory directory + virtual build directory, MergeDirectoryContents, CASInitialContentsFetcher, stateless-handle and BlobAccess CAS file factories, BlobAccessDirectoryFetcher, optionally CachingDirectoryFetcher, FUSE and NFS handle allocators) over seeded random DAGs in an in-memory CAS with injected Get errors, explored through kernel- and worker-facing calls with interleaved local modifications and alteration attempts; TLC recomputes the prescribed reply for every logged event and every blob is re-hashed at the end.",
+    "design_ref": "DESIGN.md section 4 (C17)",
+    "note": _NOTE + " One goroutine per scenario, case-sensitive normalizer; the native (naiveBuildDirectory / HardlinkingFileFetcher) path is not covered.",
+    "technique": "TLA+ reference model + TLC exhaustive design check + TLC validation of seeded real-code traces",
 }
